@@ -36,6 +36,7 @@ ASSUMPTIONS = [
     "real-corpus docstrings that raise DoctestParseError are counted, not judged (C14 covers containment)",
 ]
 NSHARDS = {'quick': 16, 'thorough': 16}
+RULE += (' (The program layouts are those of C01, including two-empty-line separators and directive-looking string lines.)')
 
 SHAPES = ['one', 'multi_ps1', 'multi_ps2', 'def', 'deco', 'try', 'ifelse', 'mlstr_bare', 'mlstr_dots', 'old',
           'comment', 'directive', 'semi', 'backslash', 'nested3', 'strprompt', 'mlstr_ps1', 'bs_comment', 'bs_string']
